@@ -23,7 +23,7 @@
       positive counterpart for the repaired paths on the same interleaving:
       `old_liveGet_outE_empty_edge` / `liveGet_outE_skips` — level / pebble: View opened, DelEdge
           acknowledged, then the request is served: old code emits the EMPTY edge, repaired: nothing;
-      `old_pebble_delEdge_torn` / `pebble_delEdge_torn_skips` — pebble's Update is not a transaction;
+      `old_pebble_delEdge_torn` / `pebble_delEdge_torn_skips` — pebble's Update WAS not a transaction (`pebbleOld`; repaired since: `pebble_delEdge_one_group`);
       `split_addEdge_code_order_partial`, `split_addEdge_adj_first`, `split_addEdge_delEdge_dangling`
           — (c1) AddEdge cut into single writes (old: empty edge; repaired: dangling key skipped,
           store not adjClosed);
@@ -461,7 +461,7 @@ theorem adjClosed_iff (g : String) (m : KV) : adjClosed g m = true ↔ AdjClosed
       · simp [hg]
 
 /-- a complete writer call whose writes reach the store as ONE group (bolt and level: every
-    call; badger: DelEdge, DelVertex and adds small enough for one WriteBatch txn; pebble: adds).
+    call; badger: DelEdge, DelVertex and adds small enough for one WriteBatch txn; pebble: all calls since its Update is an indexed batch).
     The deletes carry the View they were computed from — ANY store, however stale. -/
 inductive WCall where
   | add (fields : List String) (xs : List ElemIn)
@@ -612,20 +612,30 @@ def tornEvs : List Event :=
   [Event.write [W.del (.edge "g" "e1" "a" "b" "knows")], .openScan, .get] ++
     [Event.write [W.del (.src "g" "a" "b" "e1" "knows")], .write [W.del (.dst "g" "b" "a" "e1" "knows")]]
 
-/-- OLD CODE, pebble: `Update` is not a transaction, DelEdge's three Deletes are three groups
-    (record first).  A reader whose View opens after the first of them saw a dangling src key and
-    emitted the empty edge. -/
+/-- OLD CODE and OLD pebble driver (`pebbleOld`: `Update` was not a transaction, DelEdge's three
+    Deletes were three groups, record first).  A reader whose View opened after the first of them saw
+    a dangling src key and emitted the empty edge. -/
 theorem old_pebble_delEdge_torn :
-    (delEdgeGroups pebble s1 "g" "e1").length = 3 ∧
-    writesOf tornEvs = delEdgeGroups pebble s1 "g" "e1" ∧
-    (run (pOutEOld pebble "g" ["a"] []) (start s1) tornEvs).out = [emptyEdge] := by
+    (delEdgeGroups pebbleOld s1 "g" "e1").length = 3 ∧
+    writesOf tornEvs = delEdgeGroups pebbleOld s1 "g" "e1" ∧
+    (run (pOutEOld pebbleOld "g" ["a"] []) (start s1) tornEvs).out = [emptyEdge] := by
   refine ⟨?_, ?_, ?_⟩ <;> with_unfolding_all decide
 
-/-- REPAIRED CODE, same interleaving (pebble's Update is still not a transaction): the dangling
-    src key is met and silently skipped. -/
+/-- REPAIRED edge paths on the OLD pebble driver, same interleaving: the dangling src key is met
+    and silently skipped. -/
 theorem pebble_delEdge_torn_skips :
-    (run (pOutE pebble "g" ["a"] []) (start s1) tornEvs).out = [] := by
+    (run (pOutE pebbleOld "g" ["a"] []) (start s1) tornEvs).out = [] := by
   with_unfolding_all decide
+
+/-- REPAIRED pebble driver (Update = one indexed batch): DelEdge is one group, the torn
+    interleaving does not exist, and a reader opening at any point sees the edge whole or not at all. -/
+theorem pebble_delEdge_one_group :
+    (delEdgeGroups pebble s1 "g" "e1").length = 1 ∧
+    (run (pOutE pebble "g" ["a"] []) (start s1)
+      ([Event.openScan, .get] ++ (delEdgeGroups pebble s1 "g" "e1").map Event.write)).out.length = 1 ∧
+    (run (pOutE pebble "g" ["a"] []) (start s1)
+      ((delEdgeGroups pebble s1 "g" "e1").map Event.write ++ [Event.openScan, .get])).out = [] := by
+  refine ⟨?_, ?_, ?_⟩ <;> with_unfolding_all decide
 
 /-- (c1) AddEdge cut into single writes in the order of the code (record, src, dst, doc) — what
     badger's WriteBatch may do to a large BulkAdd.  A snapshot reader between the src and the dst
